@@ -34,9 +34,20 @@ def optimal_walks(n, edges, d, s, t, cap=2):
 class P(Prop):
     id = "C07"
     design_ref = "DESIGN.md section 5, C07"
-    theorems = []
+    M = "TracklibVerif.Props.C07"
+    theorems = [
+        (M, "TV.C07.forward_state_good", "the flags left by run_routing_forward(s,t,cut) satisfy the invariants: antecedent is settled, joined by antecedent_edge in a permitted direction, tight (d v = d a + w), well-founded in settle order"),
+        (M, "TV.C07.path_is_walk", "any path returned by shortest_path(s,t,cut): node list from s to t, consecutive nodes joined by the recorded edge in a permitted direction; geometry = chain of those edges' polylines along the travel, junctions once, ending at pos t; weights sum to the label of t"),
+        (M, "TV.C07.path_optimal", "for shortest_path(s,t) the recorded edges' weights sum to the true shortest distance"),
+        (M, "TV.C07.path_optimal_cut", "with a cut-off not below the true distance the returned path still realises the true distance"),
+        (M, "TV.C07.geometry_chained", "if every edge polyline runs from its source's to its target's position, the returned geometry starts at pos s and ends at pos t"),
+        (M, "TV.C07.unreachable_none", "no permitted walk => None; t = s => None (as coded)"),
+        (M, "TV.C07.reachable_path", "a reachable target other than the source always gets a path"),
+        (M, "TV.C07.never_diverges", "the loop `while node.antecedent != \"\"` always terminates (within n+1 iterations) on the flags left by the forward pass"),
+    ]
     partial = []
-    open_statements = []
+    open_statements = ["Track.copy/reverse/__gt__/__add__ are modelled as list operations on the vertex list (not proved about track.py)",
+                       "with a cut-off below the true distance shortest_path may return a tentative (non-optimal) path: outside the statement, not checked"]
     modelled = ("Network.run_routing_forward (as for C06) and run_routing_backward as it is after fix 9d0d428 (walk of antecedent / antecedent_edge, "
                 "polyline reversed when e.source != node, appended minus its first vertex, final reverse, path = node ids reversed), shortest_path; "
                 "Track.copy/reverse/__gt__/__add__ as list operations on the vertex list")
